@@ -25,11 +25,44 @@ type frameParser struct {
 	unknownFrameHandler unknownFrameHandlerFunc
 }
 
+// countingReader counts the bytes it hands out. The frame parser uses it to tell the
+// clean end of a stream (io.EOF at a frame boundary) from a truncated frame (io.EOF
+// after part of a frame was read), see RFC 9114, section 7.1.
+type countingReader struct {
+	quicvarint.Reader
+	n uint64
+}
+
+func (r *countingReader) ReadByte() (byte, error) {
+	b, err := r.Reader.ReadByte()
+	if err == nil {
+		r.n++
+	}
+	return b, err
+}
+
+func (r *countingReader) Read(b []byte) (int, error) {
+	n, err := r.Reader.Read(b)
+	r.n += uint64(n)
+	return n, err
+}
+
+// truncatedFrame turns the io.EOF of a stream that ended inside a frame into
+// io.ErrUnexpectedEOF. consumed is the number of bytes of that frame read so far.
+func truncatedFrame(err error, consumed uint64) error {
+	if err == io.EOF && consumed > 0 {
+		return io.ErrUnexpectedEOF
+	}
+	return err
+}
+
 func (p *frameParser) ParseNext() (frame, error) {
-	qr := quicvarint.NewReader(p.r)
+	qr := &countingReader{Reader: quicvarint.NewReader(p.r)}
 	for {
+		start := qr.n // a new frame begins here
 		t, err := quicvarint.Read(qr)
 		if err != nil {
+			err = truncatedFrame(err, qr.n-start)
 			if p.unknownFrameHandler != nil {
 				hijacked, err := p.unknownFrameHandler(0, err)
 				if err != nil {
@@ -54,7 +87,7 @@ func (p *frameParser) ParseNext() (frame, error) {
 		}
 		l, err := quicvarint.Read(qr)
 		if err != nil {
-			return nil, err
+			return nil, truncatedFrame(err, qr.n-start)
 		}
 
 		switch t {
@@ -63,7 +96,11 @@ func (p *frameParser) ParseNext() (frame, error) {
 		case 0x1:
 			return &headersFrame{Length: l}, nil
 		case 0x4:
-			return parseSettingsFrame(p.r, l)
+			f, err := parseSettingsFrame(p.r, l)
+			if err != nil {
+				return nil, truncatedFrame(err, qr.n-start)
+			}
+			return f, nil
 		case 0x3: // CANCEL_PUSH
 		case 0x5: // PUSH_PROMISE
 		case 0x7: // GOAWAY
@@ -74,7 +111,7 @@ func (p *frameParser) ParseNext() (frame, error) {
 		}
 		// skip over unknown frames
 		if _, err := io.CopyN(io.Discard, qr, int64(l)); err != nil {
-			return nil, err
+			return nil, truncatedFrame(err, qr.n-start)
 		}
 	}
 }
